@@ -44,17 +44,17 @@ def msg_total_len(buf):
 
 
 def msg_type(buf):
-    return buf[5]
+    return buf[6]          # header '!4sHBBHHII16sHH': tag 0:4, version 4:6, type 6, serializer 7, flags 8:10, seq 10:12
 
 
 def set_seq(msgbytes, seq):
     b = bytearray(msgbytes)
-    b[8:10] = struct.pack("!H", seq & 0xffff)
+    b[10:12] = struct.pack("!H", seq & 0xffff)
     return bytes(b)
 
 
 def get_seq(msgbytes):
-    return struct.unpack("!H", bytes(msgbytes[8:10]))[0]
+    return struct.unpack("!H", bytes(msgbytes[10:12]))[0]
 
 
 class Pipe:
